@@ -40,9 +40,11 @@ namespace {
 /// @since  x.y.z, 01.10.2026
 size_t grownSize( size_t pos) noexcept( false)
 {
-   if (pos == std::numeric_limits< size_t>::max())
+   // a size beyond half of the value range can neither be computed without
+   // overflow nor be allocated
+   if (pos >= std::numeric_limits< size_t>::max() / 2)
       throw std::length_error( "position is too big for a dynamic bitset");
-   return (pos + 1) * 1.5;
+   return (pos + 1) + (pos + 1) / 2;
 } // grownSize
 
 
